@@ -179,15 +179,19 @@ def enum_cases(depth):
 def gen_burst(rng, n):
     """open the congestion window with acknowledged traffic, then submit a burst: in-flight reaches the window"""
     out = []
+    fixed = [(16, 17, 19), (16, 16, 17), (8, 9, 10), (4, 5, 6), (2, 3, 4), (0, 5, 6), (16, 20, 40)]
     for i in range(n):
-        w = rng.choice([2, 3, 4, 8, 16, 0])
+        if i < len(fixed):      # the window is filled exactly and at least one more message waits behind it
+            w, warm, burst = fixed[i]
+        else:
+            w, warm, burst = rng.choice([2, 3, 4, 8, 16, 0]), rng.randrange(1, 20), rng.randrange(2, 22)
         oa, ob = origin(rng), origin(rng)
         t, ops, k = 0, [], 0
-        for _ in range(rng.randrange(1, 20)):
+        for _ in range(warm):
             ops += ["sA:%d:0:%d" % (100 + k, t), "dB:0:%d" % (t + 5), "tB:%d" % (t + 70), "dA:0:%d" % (t + 75)]
             k += 1
             t += 100
-        for _ in range(rng.randrange(2, 22)):
+        for _ in range(burst):
             ops.append("sA:%d:%d:%d" % (100 + k, rng.choice([0, 9]), t))
             k += 1
         for _ in range(rng.randrange(0, 30)):
@@ -613,11 +617,17 @@ def distribution(cases, impl):
                 d["handed"] += 1
             elif tok.startswith("D0"):
                 d["rejected_deliveries"] += 1
+            if "[" in tok and not tok.startswith("T"):
+                for q in [x for x in tok.split("[", 1)[1].split("]")[0].split(",") if x]:
+                    if q.startswith("!"):
+                        cls = "failed_write_send" if tok.startswith("S") else "failed_write_ackpath"
+                        d[cls] = d.get(cls, 0) + 1
             if tok.startswith("T"):
                 inner = tok.split("[", 1)[1].split("]")[0]
                 for q in [x for x in inner.split(",") if x]:
                     if q.startswith("!"):
-                        d["failed_writes"] = d.get("failed_writes", 0) + 1
+                        cls = "failed_write_tick_zlb" if q.startswith("!z.") else "failed_write_tick_retransmit"
+                        d[cls] = d.get(cls, 0) + 1
                     if q.lstrip("!").startswith("z."):
                         d["zlbs_sent"] += 1
                     else:
@@ -628,6 +638,8 @@ def distribution(cases, impl):
                 st = tok.rsplit("/", 1)[1].split(",")
                 ns = int(st[0])
                 d["max_inflight"] = max(d["max_inflight"], int(st[5]))
+                if int(st[5]) >= 16 and int(st[4]) > int(st[5]):
+                    d["window16_full_and_queued"] = d.get("window16_full_and_queued", 0) + 1
                 if ns >= 0xfff0:
                     seen_hi = True
                 if seen_hi and ns < 16:
